@@ -83,7 +83,10 @@ Pinned == <<
   Mk(<<"A", "B", "C">>, << <<1, 0, 0>>, <<-1, 1, 0>>, <<0, -1, 1>>, <<0, 0, -1>>, <<1, -1, 0>>, <<0, -1, 1>> >>,
      <<-1, -1, 0, 1, 1, -2>>, <<2, 2, 3, 3, 2, -1>>, NoU, FALSE, <<0, 0>>),
   Mk(<<"A", "B", "C">>, << <<1, 0, 0>>, <<-1, 1, 0>>, <<0, -1, 1>>, <<0, 0, -1>>, <<-1, 0, 0>> >>,
-     <<-2, -1, 0, 0, 1>>, <<4, 2, 2, 2, 2>>, NoU, FALSE, <<0, 0>>)
+     <<-2, -1, 0, 0, 1>>, <<4, 2, 2, 2, 2>>, NoU, FALSE, <<0, 0>>),
+  \* a window 0 <= v4 - v5 <= 1 written as TWO rows over the same expression, each binding on one side only
+  Mk(<<"A", "B">>, Net5, <<1, 0, 0, 0, 0>>, <<4, 2, 2, 4, 3>>,
+     <<UC(<<0, 0, 0, 1, -1>>, 0, 0, 20), UC(<<0, 0, 0, 1, -1>>, 0, -20, 1)>>, FALSE, <<0, 0>>)
 >>
 
 Backbone == << <<1, 0, 0>>, <<-1, 1, 0>>, <<0, -1, 1>>, <<0, 0, -1>> >>
